@@ -5,7 +5,7 @@ from . import grammar as G
 
 ATOMISTIC = {
     'PEO': '[$]COC[$]', 'PE': '[$]CC[$]', 'PS': '[$]CC[$]c1ccccc1', 'PMA': '[>]CC[<]C(=O)OC', 'PEG': '[>]COC[<]',
-    'OH': '[$]O', 'HT': '[$][H]', 'ME': '[$]C', 'NH': '[$]N[$]', 'AM': '[$]C[NH2+]C[$]', 'AC': '[$]CC(=O)[O-]',
+    'OH': '[$]O', 'HT': '[$][H]', 'HB': '[$]H', 'HB2': '[>]H', 'ME': '[$]C', 'NH': '[$]N[$]', 'AM': '[$]C[NH2+]C[$]', 'AC': '[$]CC(=O)[O-]',
     'ENE': '[$]=CC=[$]', 'EN2': '[$1]=CC=[$2]', 'YNE': '[$]#CC[$]', 'BZ': '[$]cc[$]', 'LAB': '[$A]CC[$B]',
     'TRI': '[$]CC[$][$]', 'QUA': '[$]C([$])([$])C', 'SUR': '[$]C[$][$][>][<]', 'DIR': '[>]C[>]C[<]', 'SQ': '[!]CC[!]',
     'SQ2': 'C[!]C[$]', 'PY': '[$]c1ccncc1', 'SO': '[$]CS(=O)(=O)C[$]', 'PH': '[$]OP(=O)(O)O[$]', 'CL': '[$]CCl',
